@@ -95,6 +95,7 @@ Prods(sym, rich) ==
          {<<>>} \cup (IF rich THEN {<<w, NT("Stmt"), NT("Prog")>>} ELSE {})
     [] sym = "Stmt" ->
          {<<NT("OpenStmt")>>, <<NT("StarComment")>>, <<NT("Datalines")>>}
+         \cup (IF ~AllowFault THEN {<<NT("PctComment")>>} ELSE {})
          \cup (IF rich THEN {<<NT("MacroStmt")>>, <<NT("MacroStmt")>>, <<NT("MacroDef")>>} ELSE {})
     [] sym = "OpenStmt" ->
          {<<NT("OpenFirst"), NT("OpenRest"), w, T(";")>>}
@@ -109,6 +110,9 @@ Prods(sym, rich) ==
           <<NT("MVarRef")>>, <<NT("Call")>>}
     [] sym = "StarComment" ->
          {<<C("* note, a=b (c) 'd ;")>>, <<C("*;")>>, <<C("** x ;")>>}
+    \* a macro comment ends at the first semicolon outside a quoted string; the other quote inside a string is text
+    [] sym = "PctComment" ->
+         {<<C("%* note \"it's; masked\" end;")>>, <<C("%* a 'x\"; y' b;")>>, <<C("%*;")>>}
     [] sym = "Datalines" ->
          {<<NT("DlKw"), w0, T(";"), T(dt), T(";")>> :
              w0 \in {T(""), T(" "), T("\n")}, dt \in {"", "\n1 2\n3 'x\n", " a %let b &c \"\n"}}
@@ -226,7 +230,10 @@ Prods(sym, rich) ==
     [] sym = "Operand" ->
          {<<<<"int", i>>>> : i \in Ints} \cup Seq1({T(wd) : wd \in Words}) \cup
          {<<NT("MVarRef")>>, <<NT("SQuoted")>>, <<NT("DQuoted")>>} \cup
-         (IF rich THEN {<<NT("Call")>>, <<D("(", "LPAREN"), w, NT("Expr"), wb, D(")", "RPAREN")>>} \cup
+         (IF rich THEN {<<NT("Call")>>, <<D("(", "LPAREN"), w, NT("Expr"), wb, D(")", "RPAREN")>>} ELSE {}) \cup
+         (IF rich /\ ~AllowFault THEN
+                       \* (not in programs with a deleted delimiter: without the comma before it the percent sign lands
+                       \*  in argument text, where %* opens a macro comment and %( is a quoted parenthesis)
                        \* a literal percent is text; the symbol glued to it is still an operator token (only %= %^ %~
                        \* are quoted operators) and a parenthesis glued to it still counts for the nesting
                        {<<T("%"), D(o[1], o[2]), w, NT("Operand")>> : o \in PctOps} \cup
